@@ -86,8 +86,17 @@ def _call(nm, args):
     return v
 
 
+class _Tab(list):
+    """a constant table: an index outside it is an error of the code under analysis, not Python's from-the-end indexing"""
+    def __getitem__(self, i):
+        if not isinstance(i, int) or i < 0 or i >= len(self):
+            raise IndexError('table index %r outside 0..%d' % (i, len(self) - 1))
+        return list.__getitem__(self, i)
+
+
 def _fn(text, names):
-    return eval('lambda %s: %s' % (', '.join(names), text), {'__builtins__': {}, '__call': _call, '__T': _CTX.get('tabs') or {}})
+    tabs = {k: _Tab(v) for k, v in (_CTX.get('tabs') or {}).items()}
+    return eval('lambda %s: %s' % (', '.join(names), text), {'__builtins__': {}, '__call': _call, '__T': tabs})
 
 
 def _tables(f):
@@ -441,7 +450,7 @@ def rule_pct_laws(prog, rep, rid='TB14'):
                   'two-digit helper returns 16*hi + lo for all 484 digit pairs in either case')
     f = prog.need_func('qurl_encode')
     tabs = _tables(f)
-    _CTX.update(prog=prog, unit=f.unit, tabs={k: v for k, v in tabs.items() if len(v) == 16})
+    _CTX.update(prog=prog, unit=f.unit, tabs={k: v for k, v in tabs.items() if len(v) in (16, 17)})
     defs = _local_defs(f)
     # the three stores of the escape arm: '%', digit, digit
     esc = None
@@ -455,6 +464,13 @@ def rule_pct_laws(prog, rep, rid='TB14'):
     if esc is not None:
         bytevar = None
 
+        def asbyte(node):
+            # plain char is signed on the targets the build covers: a byte >= 0x80 read through it is negative
+            t = (qtype(node) or '').replace('const ', '').replace('volatile ', '').strip()
+            if t in ('char', 'signed char', 'int8_t'):
+                return '(((c + 128) & 255) - 128)'
+            return 'c'
+
         def leaf(e):
             s = strip(e)
             if s.get('kind') == 'DeclRefExpr':
@@ -464,14 +480,14 @@ def rule_pct_laws(prog, rep, rid='TB14'):
                     inner = strip(ds[0])
                     if (inner.get('kind') == 'UnaryOperator' and inner.get('opcode') == '*') or \
                             (inner.get('kind') == 'ArraySubscriptExpr' and (qtype(strip(children(inner)[0])) or '').rstrip().endswith('*')):
-                        return 'c'                       # the byte read from the input cursor
+                        return asbyte(s)                 # the byte read from the input cursor, as the variable's type holds it
                     return '(%s)' % pyexpr(ds[0], leaf)
             if s.get('kind') == 'UnaryOperator' and s.get('opcode') == '*':
-                return 'c'
+                return asbyte(s)
             if s.get('kind') == 'ArraySubscriptExpr':
                 b = strip(children(s)[0])
                 if (qtype(b) or '').rstrip().endswith('*') and (b.get('referencedDecl') or {}).get('name') not in tabs:
-                    return 'c'                           # input[i]
+                    return asbyte(s)                     # input[i]
             return None
         for j, st in enumerate(esc[1:]):
             try:
@@ -480,7 +496,11 @@ def rule_pct_laws(prog, rep, rid='TB14'):
                 raise AnalysisBroken('qurl_encode: escape digit cannot be evaluated (%s)' % ex)
             bad = []
             for c in range(256):
-                ch = fn(c) & 0xff
+                try:
+                    ch = fn(c) & 0xff
+                except IndexError:
+                    bad.append(c)            # the digit table is indexed outside its bounds for this byte
+                    continue
                 want = (c >> 4) if j == 0 else (c & 15)
                 if chr(ch) not in HEXDIG or int(chr(ch), 16) != want:
                     bad.append(c)
